@@ -31,8 +31,10 @@ FILTER_POOL = [
     [0x1111, 2, 0xFF, 0],
     [0x3333, 7, 0xFF, 0xFFFFFFFF],
     [0x2222, 3, 2, 0xFFFFFFFF],
+    [0x1111, 1, 1, 1],  # differs from the second filter only in the minor version
+    [0x1111, 1, 1, 3],
 ]
-KEYS = [(0x1111, 1, 1, 0), (0x1111, 2, 1, 0), (0x2222, 1, 1, 5), (0x3333, 7, 4, 9), (0x2222, 3, 2, 1), (0x1111, 1, 2, 0)]
+KEYS = [(0x1111, 1, 1, 1), (0x1111, 1, 1, 3), (0x1111, 1, 1, 0), (0x1111, 2, 1, 0), (0x2222, 1, 1, 5), (0x3333, 7, 4, 9), (0x2222, 3, 2, 1), (0x1111, 1, 2, 0)]
 OFFS = [-1e-4, -RES / 4, 0.0, RES / 4, 1e-4]
 INF_TTL = 0xFFFFFF
 
